@@ -82,6 +82,14 @@ def differential(ctx, lines, label=""):
         what = "<hang> the call did not return" if rc == vlib.HANG_RC else "<crash rc=%d> %s" % (rc, err.strip().split("\n")[0][:300] if err.strip() else "")
         bad = [(k, lines[k] if k < len(lines) else "<eof>", what, "<no crash>")]
         ctx.crash_stderr = err[-6000:]
+        # a disagreement in the answered prefix comes first: the crash may be the late consequence of an earlier wrong store
+        if k > 0:
+            try:
+                rc2, model, err2 = vlib.run_stream(ctx.driver, [a + " => " + b for a, b in zip(lines[:k], impl[:k])])
+                if rc2 == 0 and len(model) == k:
+                    early = vlib.diff_streams(lines[:k], impl[:k], model)
+                    if early: return early + bad, impl, model
+            except Exception: pass
         return bad, impl, []
     dl = [a + " => " + b for a, b in zip(lines, impl)]
     rc2, model, err2 = vlib.run_stream(ctx.driver, dl)
